@@ -1,6 +1,7 @@
 import Rangers.Model.TxAuth
 import Rangers.Proofs.TxAuth
 import Rangers.Proofs.TxAuthCodec
+import Rangers.Proofs.TxAuthRlp
 /-!
 # C07 — only authentic transactions are admitted
 
@@ -17,7 +18,7 @@ open Rangers Rangers.Model.TxAuth
     and to state counterexamples (nothing is claimed about real cryptography) -/
 def toyCrypto : Crypto :=
   { sha256 := fun _ => List.replicate 32 7, keccak := fun _ => List.replicate 32 1,
-    recover := fun _ _ => some [4], verify := fun _ _ _ => true }
+    recoverCore := fun _ _ _ _ => some [4], verifyCore := fun _ _ _ _ => true }
 
 def toyCfg : ChainCfg :=
   { chainId := [57], originalChainId := [57], proposal001Block := 0, genesisChainId := none }
@@ -31,7 +32,7 @@ theorem native_accept_iff (cr : Crypto) (cfg : ChainCfg) (h : Nat) (tx : Tx) :
     verifyNative cr cfg h tx = .ok ↔
       tx.chainId = chainIdStr cfg h ∧ tx.hash = cr.sha256 (ser tx) ∧
       ∃ sg pk, tx.sign = some sg ∧ recoverPubkey cr tx.hash sg.bytes = some pk ∧
-        cr.verify pk tx.hash (sg.bytes.take 64) = true ∧ tx.source = nativeAddrStr cr pk := by
+        libVerify cr pk tx.hash (sg.bytes.take 64) = true ∧ tx.source = nativeAddrStr cr pk := by
   unfold verifyNative verifySign
   by_cases hc : tx.chainId = chainIdStr cfg h
   · by_cases hh : tx.hash = cr.sha256 (ser tx)
@@ -46,7 +47,7 @@ theorem native_accept_iff (cr : Crypto) (cfg : ChainCfg) (h : Nat) (tx : Tx) :
 
 example : ∃ cr cfg h tx, verifyNative cr cfg h tx = .ok :=
   ⟨{ sha256 := fun _ => List.replicate 32 7, keccak := fun _ => List.replicate 32 1,
-     recover := fun _ _ => some [4], verify := fun _ _ _ => true },
+     recoverCore := fun _ _ _ _ => some [4], verifyCore := fun _ _ _ _ => true },
    { chainId := [57], originalChainId := [57], proposal001Block := 0, genesisChainId := none }, 0,
    { source := toHex0x (toAddress (List.replicate 32 1)), target := [], type := 0, time := [], data := [],
      extraData := [], hash := List.replicate 32 7, sign := some ⟨1, 1, 27⟩, nonce := 0, chainId := [57],
@@ -101,7 +102,7 @@ theorem honest_native_accepted (cr : Crypto) (cfg : ChainCfg) (h : Nat) (tx : Tx
     (hcid : tx.chainId = chainIdStr cfg h) (hhash : tx.hash = cr.sha256 (ser tx))
     (hsign : tx.sign = some sg)
     (hrec : recoverPubkey cr tx.hash sg.bytes = some pk)
-    (hver : cr.verify pk tx.hash (sg.bytes.take 64) = true)
+    (hver : libVerify cr pk tx.hash (sg.bytes.take 64) = true)
     (hsrc : tx.source = nativeAddrStr cr pk) :
     verifyTx cr cfg h tx = .ok := by
   unfold verifyTx
@@ -133,7 +134,7 @@ theorem sign_recid_alias_accepted (cr : Crypto) (cfg : ChainCfg) (h : Nat) (tx :
   · show recoverPubkey cr tx.hash (sg.body ++ [sg.recid - 27]) = some pk
     rw [recoverPubkey_alias _ _ _ _ hb h1 h2]
     exact hrec
-  · show cr.verify pk tx.hash ((sg.body ++ [sg.recid - 27]).take 64) = true
+  · show libVerify cr pk tx.hash ((sg.body ++ [sg.recid - 27]).take 64) = true
     have e1 : (sg.body ++ [sg.recid - 27]).take 64 = sg.body := by rw [← hb]; exact List.take_left' rfl
     have e2 : (sg.body ++ [sg.recid]).take 64 = sg.body := by rw [← hb]; exact List.take_left' rfl
     rw [e1]
@@ -165,7 +166,7 @@ theorem sign_mutation_partial (cr : Crypto) (cfg : ChainCfg) (h : Nat) (tx : Tx)
     (hacc' : verifyNative cr cfg h { tx with sign := sg' } = .ok) :
     ∃ sg pk s' pk', tx.sign = some sg ∧ sg' = some s' ∧
       recoverPubkey cr tx.hash sg.bytes = some pk ∧ recoverPubkey cr tx.hash s'.bytes = some pk' ∧
-      cr.verify pk tx.hash (sg.bytes.take 64) = true ∧ cr.verify pk' tx.hash (s'.bytes.take 64) = true ∧
+      libVerify cr pk tx.hash (sg.bytes.take 64) = true ∧ libVerify cr pk' tx.hash (s'.bytes.take 64) = true ∧
       nativeAddrStr cr pk' = nativeAddrStr cr pk := by
   obtain ⟨_, _, sg, pk, hs, hrec, hver, hsrc⟩ := (native_accept_iff cr cfg h tx).1 hacc
   obtain ⟨_, _, s', pk', hs', hrec', hver', hsrc'⟩ := (native_accept_iff cr cfg h _).1 hacc'
@@ -519,8 +520,10 @@ theorem honest_eth_accepted (cr : Crypto) (cfg : ChainCfg) (h : Nat) (e : EthTx)
     verifyTx cr cfg h (convertTx cr e sender (encodeTx e)) = .ok :=
   honest_eth_accepted_of_roundtrip cr cfg h e sender (payload_roundtrip e wf).1 (payload_roundtrip e wf).2 hsnd
 
-example : WfEthTx toyEth155 := by
-  constructor <;> first | decide | (intro a ha; cases ha)
+example : WfEthTx toyEth155 :=
+  ⟨by decide, by decide, (by intro a ha; cases ha), by
+    simp [toyEth155, itemOfTx, coreItems, toItem, RLP.Item.sizeOK, RLP.Item.sizeOKs, RLP.encodeList, RLP.encode,
+      RLP.encString, RLP.encHead, RLP.toBE, RLP.toBEf]⟩
 
 /-- When the EIP-155 signer of chain `c` recovers a sender: `v = 2c+35+k` with
     recovery bit `k`, `r`, `s` in range with low `s`, and the library recovers an
@@ -529,7 +532,7 @@ example : WfEthTx toyEth155 := by
 theorem ethSender_eip155 (cr : Crypto) (c : Nat) (e : EthTx) (k : Nat) (pub : Bytes)
     (hk : k < 2) (hv : e.v = 2 * c + 35 + k)
     (hr : 1 ≤ e.r ∧ e.r < secpN) (hs : 1 ≤ e.s ∧ e.s ≤ secpHalfN)
-    (hrec : recoverPubkey cr (cr.keccak (sigPreimage155 c e))
+    (hrec : recoverPubkeyEth cr (cr.keccak (sigPreimage155 c e))
       (padLeft 32 (natToBE e.r) ++ padLeft 32 (natToBE e.s) ++ [UInt8.ofNat k]) = some pub)
     (hpub : pub.head? = some 4) :
     ethSender cr c e = some (((cr.keccak (pub.drop 1)).drop 12).take 20 ++
